@@ -44,8 +44,9 @@ RULE = ("order of the streams: corpus of 6 fixed regression inputs; exhaustive: 
         "thorough: all of them, plus every 4-point multiset for d<=2 and a seeded sample of 150000 4-point multisets in d=3); "
         "wrappers: populations of 2..8 individuals with 1..5 objectives (mostly 2..4), every min/max mixture and dyadic "
         "weights, wide-range 'tiny contributor' fronts, given and default reference, each wrapper with both backends; calling "
-        "conventions: pyhv, the extension and both wrappers called with plain lists / tuples, integer arrays, float arrays, "
-        "mixed sequence/array arguments, reference all zero or not, always TWICE on the same objects (value exact both times, "
+        "conventions: pyhv, the extension and both wrappers called with plain lists / tuples, integer arrays (int8/16/32/64), float "
+        "arrays, NON-CONTIGUOUS float arrays (transposed, row-strided, column-sliced, Fortran order; built on the callee's side of "
+        "the worker pipe), mixed sequence/array arguments, reference all zero or not, always TWICE on the same objects (value exact both times, "
         "answers equal, caller's objects unchanged); float regime: random doubles in 1..6 dimensions (scales 1e-3..1e3, "
         "near-coincident points at relative distance 2e-7..1e-12 and a few ulps) against the exact measure of the doubles' "
         "exact values within 1e-12 relative, indicator index within 1e-12*total of the least exact loss; random exact sets: "
@@ -130,12 +131,29 @@ def _serve(conn, so):
         for args in req:
             try:
                 if len(args) == 3 and args[0] == "twice":
-                    outs.append((True, twice(mod.hypervolume, args[1], args[2])))
+                    outs.append((True, twice(mod.hypervolume, realize(args[1]), realize(args[2]))))
                 else:
                     outs.append((True, mod.hypervolume(*args)))
             except Exception as e:  # noqa
                 outs.append((False, e))
         conn.send(outs)
+
+
+def realize(x):
+    """('__view__', kind, base) -> the non-contiguous numpy view it describes (built on the callee's side of the
+    process boundary: pickling would silently make it contiguous); anything else is passed through."""
+    if isinstance(x, tuple) and len(x) == 3 and isinstance(x[0], str) and x[0] == "__view__":
+        kind, base = x[1], x[2]
+        if kind == "transposed":
+            return base.T
+        if kind == "strided":
+            return base[::2]
+        if kind == "colslice":
+            return base[:, ::2]
+        if kind == "fortran":
+            return numpy.asfortranarray(base)
+        raise ValueError(kind)
+    return x
 
 
 def snapshot(x):
@@ -662,7 +680,8 @@ def eval_ind(d):
 # calling conventions: sequences, integer arrays, the same array twice (F23)
 # ----------------------------------------------------------------------------------------------
 
-FORMS = ["list", "tuple", "intarray", "floatarray", "array-listref", "list-arrayref"]
+FORMS = ["list", "tuple", "intarray", "floatarray", "array-listref", "list-arrayref",
+         "int8array", "int16array", "int32array", "transposed", "strided", "colslice", "fortran"]
 
 
 def shape_args(form, pts, ref):
@@ -677,6 +696,26 @@ def shape_args(form, pts, ref):
         return numpy.array(ip, dtype=numpy.int64), numpy.array(ir, dtype=numpy.int64)
     if form == "floatarray":
         return numpy.array(ip, dtype=float), numpy.array(ir, dtype=float)
+    if form in ("int8array", "int16array", "int32array"):
+        dt = {"int8array": numpy.int8, "int16array": numpy.int16, "int32array": numpy.int32}[form]
+        if any(abs(x) > 120 for p in ip for x in p) or any(abs(x) > 120 for x in ir):
+            raise BadCase("coordinate does not fit the small integer type")
+        return numpy.array(ip, dtype=dt), numpy.array(ir, dtype=dt)
+    if form in ("transposed", "strided", "colslice", "fortran"):
+        # float64 point sets that are NOT C-contiguous: described as a view of a base array, realised by the callee
+        a = numpy.array(ip, dtype=float)
+        n, dd = a.shape
+        if form == "transposed":
+            base = numpy.ascontiguousarray(a.T)
+        elif form == "strided":
+            base = numpy.full((2 * n, dd), -77.0)
+            base[::2] = a
+        elif form == "colslice":
+            base = numpy.full((n, 2 * dd), -77.0)
+            base[:, ::2] = a
+        else:
+            base = a
+        return ("__view__", form, base), numpy.array(ir, dtype=float)
     if form == "array-listref":
         return numpy.array(ip, dtype=float), list(ir)
     if form == "list-arrayref":
@@ -706,7 +745,7 @@ def eval_conv(d):
             try:
                 with warnings.catch_warnings():
                     warnings.simplefilter("ignore")
-                    v1, v2, unchanged = twice(pyhv.hypervolume, P, R)
+                    v1, v2, unchanged = twice(pyhv.hypervolume, realize(P), realize(R))
             except lib.Infra:
                 raise
             except Exception as e:  # noqa
@@ -730,7 +769,7 @@ def eval_conv(d):
         vals = [[-(x * k) for x, k in zip(p, w)] for p in pts]          # value = -coordinate/weight, weight = +-1
         module = importlib.import_module("deap.benchmarks.tools") if target == "pop" else importlib.import_module("deap.tools.indicator")
         pop = population(w, vals)
-        _, R = shape_args(form if form in ("list", "tuple", "intarray", "floatarray") else "list", pts, ref)
+        _, R = shape_args(form if form in ("list", "tuple", "intarray", "floatarray", "int8array", "int16array", "int32array") else "list", pts, ref)
         r0 = snapshot(R)
         wv0 = [ind.fitness.wvalues for ind in pop]
         with use_backend(module, name):
@@ -985,7 +1024,7 @@ def conv_cases(rng, count):
     for _ in range(count):
         dim = rng.choice([1, 2, 2, 3, 4, 5])
         n = rng.randint(1, 6)
-        kk = rng.choice([2, 3, 9])
+        kk = rng.choice([2, 3, 9, 40])
         zero = rng.random() < 0.3
         if zero:
             pts = [[-rng.randint(0, kk) for _ in range(dim)] for _ in range(n)]
@@ -1004,7 +1043,7 @@ def conv_cases(rng, count):
             yield dict(base, form=form, target=target)
         if rng.random() < 0.5:
             w = [rng.choice(["1", "-1"]) for _ in range(dim)]
-            form2 = rng.choice(["list", "tuple", "intarray", "floatarray"])
+            form2 = rng.choice(["list", "tuple", "intarray", "floatarray", "int16array"])
             for target in ("pop", "ind"):
                 if target == "ind" and n < 2:
                     continue
@@ -1016,7 +1055,7 @@ def float_pointset(rng):
     import math
     dim = rng.choice([1, 2, 2, 3, 3, 4, 5, 6])
     n = rng.choice([1, 2, 3, 3, 4, 5, 6, 8])
-    scale = rng.choice([1.0, 1.0, 1.0, 1000.0, 1e-3])
+    scale = rng.choice([1.0, 1.0, 1.0, 1000.0, 1e-3, 1e-7])
     pts = [[rng.random() * scale for _ in range(dim)] for _ in range(n)]
     mode = rng.choice(["general", "near", "near", "ulp"])
     if mode != "general" and n > 1:
@@ -1052,7 +1091,14 @@ def float_front(rng):
         twin = [x + eps * rng.choice([-1, 1, 2, -3]) for x in src]
         pts.insert(rng.randrange(len(pts) + 1), twin)
     ref = [float(int(max(p[j] for p in pts)) + rng.choice([1, 2])) for j in range(dim)]
-    return "front-near", [repr(x) for x in ref], [[repr(x) for x in p] for p in pts]
+    mode = "front-near"
+    if rng.random() < 0.4:
+        # the same front at a tiny scale (total hypervolume 1e-8 .. 1e-28): absolute epsilons become visible
+        sc = rng.choice([1e-4, 1e-7])
+        pts = [[x * sc for x in p] for p in pts]
+        ref = [max(max(p[j] for p in pts) * rng.choice([1.0, 1.25]), r * sc * rng.choice([1.0, 0.5])) for j, r in enumerate(ref)]
+        mode = "front-near-tiny"
+    return mode, [repr(x) for x in ref], [[repr(x) for x in p] for p in pts]
 
 
 def generate(tier, rng, mult):
